@@ -47,7 +47,15 @@ var calls = []string{"LA5NTA", "N0CALL", "W1AW-5", "LA1B-10", "SM0XYZ", "K1", "D
 func GenSide(t *rapid.T, label string, call, peer string, used map[string]bool, maxMsgs, big int) Side {
 	s := Side{Call: call, Sched: gen.Schedule(t, label+"_sched"), Batched: rapid.Bool().Draw(t, label+"_batched")}
 	var n int
-	switch rapid.IntRange(0, 5).Draw(t, label+"_n_cls") {
+	switch rapid.IntRange(0, 6).Draw(t, label+"_n_cls") {
+	case 6:
+		// a long queue (more than two blocks, beyond the 12 elements up to which sort.Sort/sort.Slice
+		// happen to be stable): many small messages with mixed precedence and size ties
+		if maxMsgs >= 12 {
+			n = rapid.IntRange(13, 24).Draw(t, label+"_n")
+		} else {
+			n = rapid.IntRange(0, maxMsgs).Draw(t, label+"_n") // callers that enumerate faults per scenario keep it small
+		}
 	case 0:
 		n = 0
 	case 1:
@@ -69,6 +77,9 @@ func GenSide(t *rapid.T, label string, call, peer string, used map[string]bool, 
 		}
 		if rapid.IntRange(0, 2).Draw(t, label+"_small") > 0 {
 			sz = 600
+		}
+		if n > 12 {
+			sz = 200
 		}
 		s.Queue = append(s.Queue, msggen.Gen(t, used, call, peer, sz))
 	}
